@@ -66,7 +66,10 @@ struct World {
     /// handle slots: slot i holds the current address of object i (mutexes first, then
     /// conditions, then the lonely condition); updated by relocation
     slots: Vec<AtomicUsize>,
-    arena: StdMutex<Vec<Box<[u64; OBJ_WORDS]>>>,
+    /// chunks of harness memory that hold the fabricated objects (objects are 8-byte aligned
+    /// like real heap objects, so that bucket positions depend on address bits 3 and up)
+    arena: StdMutex<Vec<Box<[u64]>>>,
+    relocations: AtomicUsize,
     counters: Vec<AtomicI64>,
     inside: Vec<AtomicBool>,
     flags: Vec<AtomicBool>,
@@ -193,20 +196,25 @@ fn relocate(w: &Arc<World>) {
         }
         let mut arena = w2.arena.lock().unwrap();
         let n = w2.slots.len();
+        let round = w2.relocations.fetch_add(1, Ordering::Relaxed) + 1;
+        // fresh chunk; objects are packed with a round-dependent shift and order
+        let mut chunk: Box<[u64]> = vec![0u64; n * OBJ_WORDS + 8].into_boxed_slice();
+        let base = chunk.as_mut_ptr() as usize + 8 * (round % 5);
         let mut moved: Vec<(usize, usize)> = Vec::new();
         for i in 0..n {
             let old = w2.slots[i].load(Ordering::Relaxed);
-            let mut fresh = Box::new([0u64; OBJ_WORDS]);
+            let pos = (i * 5 + round) % n; // a permutation for n not divisible by 5; collisions avoided below
+            let _ = pos;
+            let newaddr = base + ((i + round) % n) * OBJ_WORDS * 8;
             unsafe {
-                std::ptr::copy_nonoverlapping(old as *const u64, fresh.as_mut_ptr(), OBJ_WORDS);
+                std::ptr::copy_nonoverlapping(old as *const u64, newaddr as *mut u64, OBJ_WORDS);
                 // poison the old copy: any stale access shows up as a protocol failure
                 std::ptr::write_bytes(old as *mut u8, 0xAB, OBJ_WORDS * 8);
             }
-            let newaddr = fresh.as_ptr() as usize;
-            arena.push(fresh);
             w2.slots[i].store(newaddr, Ordering::Relaxed);
             moved.push((old, newaddr));
         }
+        arena.push(chunk);
         // update the keys of the wait table exactly like the collectors do
         w2.rt.wait_lists.visit_roots(|slot: Slot| {
             let cur = slot.get().to_usize();
@@ -327,6 +335,38 @@ impl Scenario for WaitqScenario {
     const HARNESS: &'static str = "waitq";
 
     fn generate(rng: &mut Prng) -> Self {
+        if rng.chance(1, 8) {
+            // "wide" family: 7-9 objects keyed in the wait table at once (the table grows past
+            // its minimum capacity, so bucket positions depend on more address bits), a moving
+            // collection while the waiters are queued, then one notification per condition
+            let nw = rng.range(6, 8) as usize;
+            let nmutex = rng.range(1, 2) as usize;
+            let mut threads: Vec<Vec<Op>> = vec![Vec::new(); nw + 1];
+            for t in 1..=nw {
+                threads[0].push(Op::Spawn(t));
+                if rng.chance(1, 3) {
+                    threads[t].push(Op::Section(rng.below(nmutex as u64) as usize, 1));
+                }
+                threads[t].push(Op::Wait(t - 1, rng.below(nmutex as u64) as usize));
+            }
+            for _ in 0..rng.range(1, 3) {
+                threads[0].push(if rng.chance(2, 3) { Op::Relocate } else { Op::Poll });
+            }
+            let mut order: Vec<usize> = (0..nw).collect();
+            for i in (1..nw).rev() {
+                let j = rng.below(i as u64 + 1) as usize;
+                order.swap(i, j);
+            }
+            for c in order {
+                // find the mutex the waiter of c uses
+                let m = threads[c + 1].iter().find_map(|o| if let Op::Wait(_, m) = o { Some(*m) } else { None }).unwrap();
+                threads[0].push(Op::Signal(c, m, rng.chance(2, 3)));
+                if rng.chance(1, 4) {
+                    threads[0].push(Op::Relocate);
+                }
+            }
+            return WaitqScenario { nmutex, ncond: nw, threads };
+        }
         let nthreads = rng.range(2, 4) as usize;
         let nmutex = rng.range(1, 3) as usize;
         let ncond = rng.range(0, 2) as usize;
@@ -483,18 +523,21 @@ impl Scenario for WaitqScenario {
 
         let n = self.threads.len();
         let nobj = self.nmutex + self.ncond + 1;
-        let mut arena: Vec<Box<[u64; OBJ_WORDS]>> = Vec::new();
+        let mut arena: Vec<Box<[u64]>> = Vec::new();
         let mut slots = Vec::new();
-        for _ in 0..nobj {
+        let mut chunk: Box<[u64]> = vec![0u64; nobj * OBJ_WORDS + 8].into_boxed_slice();
+        let base = chunk.as_mut_ptr() as usize;
+        for i in 0..nobj {
             // header word: any non-forwarding value; state 0; owner 0
-            let b = Box::new([0xFFFF_FFFC_0000_0100u64, 0, 0]);
-            slots.push(AtomicUsize::new(b.as_ptr() as usize));
-            arena.push(b);
+            chunk[i * OBJ_WORDS] = 0xFFFF_FFFC_0000_0100u64;
+            slots.push(AtomicUsize::new(base + i * OBJ_WORDS * 8));
         }
+        arena.push(chunk);
         let w = Arc::new(World {
             rt,
             slots,
             arena: StdMutex::new(arena),
+            relocations: AtomicUsize::new(0),
             counters: (0..self.nmutex).map(|_| AtomicI64::new(0)).collect(),
             inside: (0..self.nmutex).map(|_| AtomicBool::new(false)).collect(),
             flags: (0..self.ncond.max(1)).map(|_| AtomicBool::new(false)).collect(),
